@@ -126,6 +126,37 @@ func genMatch(t *rapid.T) []Cond {
 
 var classes = []string{"[a-z]", "[a-z0-9-]", "[0-9a-f-]", "[^,;]", "[A-Za-z_.]", "[^ ]", "[xyz]"}
 
+// genClass: a bracket expression from the fixed pool or built from the documented grammar - optional negation, a
+// literal hyphen first and/or last, single characters and ranges in between (a hyphen is a range operator only between
+// two characters).
+func genClass(t *rapid.T) string {
+	if rapid.Bool().Draw(t, "poolClass") {
+		return rapid.SampledFrom(classes).Draw(t, "class")
+	}
+	var b strings.Builder
+	b.WriteByte('[')
+	if rapid.Bool().Draw(t, "neg") {
+		b.WriteByte('^')
+	}
+	lead := rapid.Bool().Draw(t, "leadHyphen")
+	if lead {
+		b.WriteByte('-')
+	}
+	n := rapid.IntRange(1, 4).Draw(t, "nitems")
+	for i := 0; i < n; i++ {
+		if rapid.IntRange(0, 2).Draw(t, "range") == 0 {
+			b.WriteString(rapid.SampledFrom([]string{"a-z", "A-Z", "0-9", "a-f", "0-7", "x-z", "_-a"}).Draw(t, "rng"))
+		} else {
+			b.WriteString(rapid.SampledFrom([]string{"a", "b", "x", "z", "0", "9", "_", ".", ",", ";", "/", ":", " ", "`", "@"}).Draw(t, "chr"))
+		}
+	}
+	if rapid.Bool().Draw(t, "trailHyphen") {
+		b.WriteByte('-')
+	}
+	b.WriteByte(']')
+	return b.String()
+}
+
 type genState struct {
 	labelSeq int
 	plainLabels []string // labels of unconditional (100%) drop steps so far
@@ -223,7 +254,7 @@ func genStep(t *rapid.T, st *genState, depth int) Step {
 		if rapid.Bool().Draw(t, "star") {
 			s.Wild = "*"
 		} else {
-			s.Wild = rapid.SampledFrom(classes).Draw(t, "class")
+			s.Wild = genClass(t)
 		}
 		s.Left = genCfgString(0, 3).Draw(t, "left")
 		s.Right = genCfgString(0, 3).Draw(t, "right")
